@@ -69,3 +69,13 @@ mod test {
         assert!(norm < f64::EPSILON * 100.0, "norm: {norm}");
     }
 }
+
+// Verification hooks (contract-based deductive verification harnesses living
+// outside this repository). Compiled only with `--cfg falcon_rust_verif`;
+// the included file is $FALCON_RUST_VERIF_DIR/hooks/inverse.rs.
+#[cfg(falcon_rust_verif)]
+#[allow(unused, clippy::all)]
+pub(crate) mod verif {
+    use super::*;
+    include!(concat!(env!("FALCON_RUST_VERIF_DIR"), "/hooks/inverse.rs"));
+}
